@@ -33,8 +33,9 @@ macro_rules! fx {
     };
 }
 
-/// Index 0..=4 are the signing keys (order = case weighting: cheap first).
-pub static FIXTURES: [Fixture; 9] = [
+/// Index 0..=4 are the signing keys (order = case weighting: cheap first);
+/// 9..=11 are further RSA signing keys (see below).
+pub static FIXTURES: [Fixture; 12] = [
     fx!("Ktest.+015+56037", 56037, true, private, ds),
     fx!("Ktest.+013+42253", 42253, true, private, ds),
     fx!("Ktest.+014+33566", 33566, true, private, ds),
@@ -44,7 +45,19 @@ pub static FIXTURES: [Fixture; 9] = [
     fx!("Ktest.+007+22204", 22204, false, private, ds),
     fx!("Ktest.+016+07379", 7379, false, private, ds),
     fx!("Ktest-ttl.+008+60616", 60616, false),
+    // RSA keys of the other sizes ring signs with (the modulus must be a
+    // multiple of 1024 bits: 2048, 3072, 4096). Made with `openssl genpkey`
+    // and written in BIND format by a script (the .ds files by the same
+    // script: SHA-256 over lower-cased owner | RDATA). 4096 bits is the
+    // RFC 3110 limit: exponent and modulus "are each limited to 4096 bits".
+    // Index 9: RSASHA256 4096 bit; 10: RSASHA256 3072 bit with a 33-bit
+    // public exponent (5 octets); 11: RSASHA512 4096 bit.
+    fx!("Ktest.+008+34161", 34161, true, private, ds),
+    fx!("Ktest.+008+51738", 51738, true, private, ds),
+    fx!("Ktest.+010+17775", 17775, true, private, ds),
 ];
+/// Indices of the additional signing keys (after the non-signing fixtures).
+pub const BIG_RSA: [usize; 3] = [9, 10, 11];
 pub const N_SIGNING: usize = 5;
 
 pub struct Loaded {
